@@ -19,6 +19,10 @@ def run(ctx):
             ctx.notes.append('stale finding: %s no longer reproduces' % fid)
         else:
             ctx.known_finding(fid, 'witness INTEGER (3..MAX) value 3 encodes as %s, X.691 prescribes %s' % (r[1].hex() if r[0] == 'ok' else r[1], std))
+    # SET: identical octets whatever the textual order of the (explicitly tagged) components
+    from .. import tagged as _tagged
+    from ..gen import Gen as _Gen, Opts as _Opts, module_text as _module_text
+    _tagged.run_set_order(ctx, 'C05', ctx.rng, ctx.n(50, 600), impl, ['per', 'uper'], _Gen, _Opts, _module_text)
 
 
 def replay(ctx, path):
